@@ -69,6 +69,10 @@ CLAIMED = {
           "Seeded scripts of describe / connect / burst (1-2 emitter threads) / read / stall / close / reset / idle steps drive the built exporter; pipe capacities from 1 byte up force partial writes inside frames; seeded faults on every write and poll. Each client's byte stream is decoded by a hand-written protobuf decoder: whole length-delimited Events only (a fragment only on killed connections), metadata before metrics and only what was described, metric name/labels/operation intact, no duplicate, per-emitter and per-burst order, full delivery to prompt roomy clients, and - after faults stop and everybody drained - delivery of a final burst to every still-connected client for every buffer configuration including None. Three genuine defects found this way were repaired.",
           "Sequentially consistent interleavings only; mio is replaced under the guard by a shim with the same API subset whose behaviours (edge-triggered readiness, EAGAIN followed by a writable edge) follow epoll semantics; client and metadata maps are ordered maps under the guard; bursts stay within the configured buffer between transport-idle points.",
           "DESIGN.md 4/C11"),
+  "C17": ("deterministic simulation (dsim): seeded span-tree programs on 1-3 threads sharing one tracing Dispatch, interleaved at operation granularity, checked against a reference span-stack model",
+          "Seeded programs of enter / exit / record / emit over four span call sites with overlapping field names, Empty fields and values of every visited type run on 1-3 simulated threads sharing one Registry+MetricsLayer dispatch and one TracingContextLayer (include-all, allow-list, or a custom filter); a per-thread model of the span stack (own fields, parent's labels at creation not overwriting, record() overwriting on that span only) predicts the labels of every emitted key: filtered span labels overwritten by the metric's own, no label name twice, key unchanged without span fields, independent of other threads.",
+          "Interleavings inside sharded-slab and the label object pool are not subdivided (schedule sampled at harness-operation granularity); four fixed span call sites.",
+          "DESIGN.md 4/C17"),
 }
 
 NOT_APPLICABLE = {
